@@ -225,10 +225,19 @@ Error BaseAssembler::embed_const_pool(const Label& label, const ConstPool& pool)
     return report_error(make_error(Error::kLabelAlreadyBound));
   }
 
+  // Reserve the space for the padding and the data first - a buffer that cannot grow must be reported before the
+  // padding is emitted and the label is bound (the call could not be repeated otherwise).
+  size_t size = pool.size();
+  {
+    Error err = _code->grow_buffer(&_section->_buffer, size + pool.alignment());
+    if (ASMJIT_UNLIKELY(err != Error::kOk)) {
+      return report_error(err);
+    }
+  }
+
   ASMJIT_PROPAGATE(align(AlignMode::kData, uint32_t(pool.alignment())));
   ASMJIT_PROPAGATE(bind(label));
 
-  size_t size = pool.size();
   if (!size) {
     return Error::kOk;
   }
